@@ -18,7 +18,7 @@ MANIFEST = {
           'matching zero, one or several sections is pushed through writeCachedDataPoints(); the arguments of '
           'database.create() must equal the reference (first match in file order, documented defaults).',
   'note': 'Backend = in-memory verifmem plugin (whisper absent, so whisper.validateArchiveList is not exercised). '
-          'Invalid retention strings (which make carbon exit) and out-of-range xFilesFactor are outside the pools.',
+          'Invalid retention strings (which make carbon exit) and out-of-range xFilesFactor are outside the pools. A 16-pattern regex pool (alternations, groups, classes, flags, look-ahead) is run as first section before a catch-all in both files.',
 }
 
 UNITS = {'s': 1, 'm': 60, 'h': 3600, 'd': 86400, 'w': 604800, 'y': 31536000}
